@@ -3,9 +3,12 @@
 harness copy /tmp/h_main, run the check against it (VERIF_BIN_DIR), then revert. Development aid only."""
 import os, subprocess, sys
 WT, H = "/tmp/wt_main", "/tmp/h_main"
+# the checks are run from a snapshot of /verif (a git worktree of some commit) when VERIF_SNAP is set,
+# so that /verif itself can be edited meanwhile
+SNAP = os.environ.get("VERIF_SNAP", "/verif")
 cid, patch = sys.argv[1], os.path.abspath(sys.argv[2])
 bins = sys.argv[3:] or ["vh"]
-subprocess.run(["rsync", "-a", "--exclude", "target", "--exclude", "Cargo.toml", "/verif/harness/", H + "/"], check=True)
+subprocess.run(["rsync", "-a", "--exclude", "target", "--exclude", "Cargo.toml", SNAP + "/harness/", H + "/"], check=True)
 subprocess.run(["git", "-C", WT, "checkout", "--", "."], check=True)
 r = subprocess.run(["git", "-C", WT, "apply", patch])
 if r.returncode != 0:
@@ -16,7 +19,7 @@ try:
         if r.returncode != 0:
             sys.exit("mutant does not compile")
     env = dict(os.environ, VERIF_BIN_DIR=H + "/target/debug")
-    r = subprocess.run(["./check", cid, "--tier", os.environ.get("TIER", "quick")], cwd="/verif", env=env)
+    r = subprocess.run(["./check", cid, "--tier", os.environ.get("TIER", "quick")], cwd=SNAP, env=env)
     print("check exit code:", r.returncode)
 finally:
     subprocess.run(["git", "-C", WT, "checkout", "--", "."], check=True)
